@@ -5,8 +5,8 @@ import Slock.Proofs.TransLog
 Over M-TRANS (`Slock.Model.Trans`): the connection layer of ONE node — its role, the leader address its
 `TransparencyManager` knows, its client connections (binary / text) with the protocol object each one has, the link
 (`TransparencyBinaryClientProtocol`) behind each, the latest in-flight command of every link — and an abstract leader
-whose frames are inputs. Events: `accept`, `request c short q`, `leaderMsg c m early`, `linkDown c`, `role r`, `leader a`,
-`close c`. `step s e = (s', out)`: `out.client` = what CLIENTS receive, `out.fwd` = what is SENT TO THE LEADER, `out.tag` =
+whose frames are inputs. Events: `accept`, `request c short q`, `leaderMsg c m early`, `unattached c` (a frame read before
+the fresh link was attached: dropped unseen), `linkDown c`, `role r`, `leader a` (`ChangeLeader`), `close c`. `step s e = (s', out)`: `out.client` = what CLIENTS receive, `out.fwd` = what is SENT TO THE LEADER, `out.tag` =
 who handled it. `run evs` = the state after ANY event sequence from the initial node; the per-step theorems hold in
 EVERY state `s` (so in every state of every sequence, whatever the interleaving of connections and role changes).
 
@@ -237,6 +237,23 @@ theorem C10F_one_reply_early_violated :
     delivered 0 {}
       [.accept .binary, .request 0 false (.lk .lock .wait (demoCmd 1 10 0 0) .noDb),
        .leaderMsg 0 (.lockRes (localRes .lock (demoCmd 1 10 0 0) 0 1 1 [])) true, .linkDown 0] = [1, 1] := by
+  decide
+
+/-! ## INIT: two ways its answer is lost (observed on the real code, mirrored by the model) -/
+
+/-- an INIT sent AFTER another command of the connection is forwarded (by `Write`, the link's own `initCommand` stays
+unset), and the leader's answer is DROPPED by the filter in `processBinaryProcotol`: the client never hears about its INIT -/
+theorem C10F_late_init_unanswered :
+    (runOut {} [.accept .binary, .request 0 false (.lk .lock .wait (demoCmd 1 10 0 0) .noDb), .request 0 false (.init 2 9),
+        .leaderMsg 0 (.initRes 2 0 12) false]).map (fun o => (o.client, o.fwd)) =
+      [([], []), ([], [(0, .lk .lock (demoCmd 1 10 0 0))]), ([], [(0, .init 2 9)]), ([], [])] := by
+  decide
+
+/-- the answer to the INIT that `Open` itself sends can be read before `CheckClient` has attached the new link object to
+the connection (`Event.unattached`): it is dropped unseen — the INIT was forwarded, its answer reaches nobody -/
+theorem C10F_init_answer_unattached :
+    (runOut {} [.accept .binary, .request 0 false (.init 1 9), .unattached 0]).map (fun o => (o.client, o.fwd)) =
+      [([], []), ([], [(0, .init 1 9)]), ([], [])] := by
   decide
 
 /-! ## role change -/
